@@ -193,6 +193,7 @@ def pxyH : Handler := fun _inp impl => do
 
 def parseOrder : String → Except String CloseOrder
   | "client" => pure .client | "upstream" => pure .upstream | "halfclose" => pure .halfClose
+  | "halfidle" => pure .halfIdle
   | o => .error s!"bad order {o}"
 
 /-- Does the client stream start with a complete ClientHello record the proxy accepts? -/
@@ -220,9 +221,11 @@ def tunnelH : Handler := fun inp impl => do
   let s ← parseScript inp "csegs"
   let ustream ← parseHexes inp "usegs"
   let reply ← parseHexes inp "reply"
-  let reply := if order == .halfClose then reply else []
+  let half := order == .halfClose || order == .halfIdle
+  let reply := if half then reply else []
   let iup ← (do let x ← impl.getObjValAs? String "up"; hexDecode x)
   let icl ← (do let x ← impl.getObjValAs? String "cl"; hexDecode x)
+  let iserved := (impl.getObjValAs? Bool "served").toOption.getD true
   -- a large final client burst travels as (length, seed); the harness reports how many bytes arrived behind
   -- the head and whether they are exactly the burst's first bytes
   let burst := (inp.getObjValAs? Nat "burst").toOption.getD 0
@@ -254,8 +257,10 @@ def tunnelH : Handler := fun inp impl => do
       let (wt, wpre, wfwd, _) := predictConn path routed wline [.chunk wstream, .eof]
       if wt then wpre ++ wfwd else []
     | none => []
+  -- order `halfidle`: has the handler ended once the server closed the client connection?
+  let mserved := !(tunnel && order == .halfIdle) || t.torn
   let m := Json.mkObj [("up", hexEncode mup), ("cl", hexEncode mcl), ("burst_got", mburst), ("burst_ok", true),
-    ("warm_up", hexEncode mwup)]
+    ("warm_up", hexEncode mwup), ("served", mserved)]
   let timeouts := (inp.getObjValAs? Nat "rt_ms").toOption.getD 0 > 0 || (inp.getObjValAs? Nat "wt_ms").toOption.getD 0 > 0
   -- the specification, on what the endpoints actually received
   -- "once a connection is tunnelled": the proxy's own Lookup call returned a target (observed, so that a
@@ -263,19 +268,19 @@ def tunnelH : Handler := fun inp impl => do
   let expectTunnel := (impl.getObjValAs? String "lookup").toOption == some "hit"
   let wantUp := line ++ stream
   let wantCl := ustream ++ reply
-  let spec := (!expectTunnel || (iup == wantUp && icl == wantCl && ibg == burst && ibok)) &&
+  let spec := (!expectTunnel || (iup == wantUp && icl == wantCl && ibg == burst && ibok && (order != .halfIdle || iserved))) &&
     (warm.isNone || !wTunnel || iwup == wline ++ wstream)
   let segs := numChunks s
   let tag :=
     if !expectTunnel then path ++ "-no-tunnel"
-    else if order == .halfClose then
-      (if iup == wantUp && isPrefix ustream icl && isPrefix icl wantCl then "half-close-reply" else "half-close-other")
+    else if half && !spec && iup == wantUp && isPrefix ustream icl && isPrefix icl wantCl && icl != wantCl then
+      "half-close-reply"   -- the shape of D14: everything arrived except (part of) the reply
     else if path == "dyn" && pxy && !dynWritesProxyHeader then "dyn-pxyproto-ignored"
-    else path ++ (match order with | .client => "-client" | .upstream => "-upstream" | .halfClose => "-half") ++
+    else path ++ (match order with | .client => "-client" | .upstream => "-upstream" | .halfClose => "-half" | .halfIdle => "-halfidle") ++
       (if excess != [] then "-readahead" else "") ++ (if pxy then "-pxy" else "") ++
       (if late then "-late" else "") ++ (if burst > 0 then "-burst" else "") ++
       (if warm.isSome then "-second" else "") ++ (if timeouts then "-timeouts" else "")
-  return ({ model := m, agree := mup == iup && mcl == icl && mburst == ibg && ibok && mwup == iwup, spec := spec,
+  return ({ model := m, agree := mup == iup && mcl == icl && mburst == ibg && ibok && mwup == iwup && (!expectTunnel || mserved == iserved), spec := spec,
             nontrivial := expectTunnel && stream != [] && (segs ≥ 2 || ustream != []),
             tag := tag } : Verdict).toJson
 
@@ -285,6 +290,7 @@ def wsH : Handler := fun inp impl => do
   let ustream ← parseHexes inp "usegs"
   let extra ← parseHexes inp "u101extra"
   let reply ← parseHexes inp "reply"
+  if order == .halfIdle then throw "c09.ws: no order halfidle (a hijacked connection is not the server's to close)"
   let reply := if order == .halfClose then reply else []
   let iup ← (do let x ← impl.getObjValAs? String "up"; hexDecode x)
   let icl ← (do let x ← impl.getObjValAs? String "cl"; hexDecode x)
@@ -299,9 +305,9 @@ def wsH : Handler := fun inp impl => do
   let spec := hs && iup == stream && icl == wantCl && ibg == burst && ibok
   let tag :=
     if !hs then "handshake-failed"
-    else if order == .halfClose then
-      (if iup == stream && isPrefix (extra ++ ustream) icl && isPrefix icl wantCl then "half-close-reply" else "half-close-other")
-    else "ws" ++ (match order with | .client => "-client" | .upstream => "-upstream" | .halfClose => "-half") ++
+    else if order == .halfClose && !spec && iup == stream && isPrefix (extra ++ ustream) icl && isPrefix icl wantCl && icl != wantCl then
+      "half-close-reply"
+    else "ws" ++ (match order with | .client => "-client" | .upstream => "-upstream" | .halfClose => "-half" | .halfIdle => "-halfidle") ++
       (if extra != [] then "-with101" else "") ++ (if burst > 0 then "-burst" else "")
   return ({ model := m, agree := hs && t.upSaw == iup && t.clSaw == icl && ibg == burst && ibok, spec := spec,
             nontrivial := stream != [] && (numChunks s ≥ 2 || ustream != []), tag := tag } : Verdict).toJson
